@@ -921,7 +921,9 @@ class SetIndex(BaseSetIndexSortValues):
                     upsample=self.upsample,
                 )[3]
 
-            if presorted and self.npartitions == self.frame.npartitions:
+            # ``_divisions()`` publishes the per-partition mins only if the
+            # caller did not ask for another partition count
+            if presorted and self._npartitions_input == self.frame.npartitions:
                 index_set = SetIndexBlockwise(
                     self.frame, self._other, self.drop, divisions, self.append
                 )
@@ -1028,7 +1030,8 @@ class SortValues(BaseSetIndexSortValues):
             self._divisions_ascending,
             upsample=self.upsample,
         )
-        if presorted:
+        if presorted and self._npartitions_input == self.frame.npartitions:
+            # the shuffle is skipped (see ``_lower``)
             return self.frame.divisions
         return (None,) * len(divisions)
 
@@ -1083,7 +1086,7 @@ class SortValues(BaseSetIndexSortValues):
             self._divisions_ascending,
             upsample=self.upsample,
         )
-        if presorted and self.npartitions == self.frame.npartitions:
+        if presorted and self._npartitions_input == self.frame.npartitions:
             return SortValuesBlockwise(
                 self.frame, self.sort_function, self.sort_function_kwargs
             )
